@@ -56,6 +56,8 @@ pub struct InputSpec {
     pub ref_param: Option<String>,
     pub min: Option<Amount>,
     pub redeemer: bool,
+    /// `redeemer: Act::A<k>` (a case of the ten-case variant type) instead of `()`
+    pub redeemer_case: Option<u8>,
     pub datum_is: bool,
     /// `datum_is: Int` instead of `datum_is: Rec`: the whole datum is one integer
     pub datum_int: bool,
@@ -93,6 +95,7 @@ pub struct MintSpec {
     pub tok: usize,
     pub q: Q,
     pub redeemer: bool,
+    pub redeemer_case: Option<u8>,
 }
 
 #[derive(Clone, Debug)]
@@ -108,12 +111,14 @@ pub enum MetaVal {
     Str(String),
     Int(Q),
     BytesParam(String),
+    /// slot_to_time(time_to_slot(<literal time>)): snaps a timestamp to the slot grid
+    TimeSnap(i128),
 }
 
 #[derive(Clone, Debug)]
 pub enum Directive {
     Withdrawal { from: usize, amount: Q, redeemer: bool },
-    PlutusWitness { version: u8, script: Vec<u8> },
+    PlutusWitness { version: u8, script: Vec<u8>, script_param: Option<String> },
     NativeWitness,
     Donation(Q),
     VoteDeleg { drep: Vec<u8>, stake: usize },
@@ -154,6 +159,8 @@ pub struct Program {
     pub policies: Vec<(String, Vec<u8>)>,
     pub tokens: Vec<Token>,
     pub has_rec: bool,
+    /// declares `type Act { A0, ..., A9 }`
+    pub has_act: bool,
     pub env: Vec<(String, Ty)>,
     pub txs: Vec<TxSpec>,
 }
@@ -250,6 +257,13 @@ impl Program {
         if self.has_rec {
             s.push_str("\ntype Rec {\n    a: Int,\n    b: Bytes,\n    l: List<Int>,\n}\n");
         }
+        if self.has_act {
+            s.push_str("\ntype Act {\n");
+            for k in 0..10 {
+                s.push_str(&format!("    A{},\n", k));
+            }
+            s.push_str("}\n");
+        }
         for tx in &self.txs {
             s.push('\n');
             s.push_str(&self.tx_source(tx));
@@ -271,7 +285,10 @@ impl Program {
             s.push_str(&format!("        min_amount: {},\n", self.pamount(m)));
         }
         if i.redeemer {
-            s.push_str("        redeemer: (),\n");
+            match i.redeemer_case {
+                Some(k) => s.push_str(&format!("        redeemer: Act::A{} {{}},\n", k)),
+                None => s.push_str("        redeemer: (),\n"),
+            }
         }
     }
 
@@ -300,7 +317,11 @@ impl Program {
                 "    mint {{\n        amount: {}({}),\n{}    }}\n",
                 self.tokens[m.tok].ident,
                 pq(&m.q),
-                if m.redeemer { "        redeemer: (),\n" } else { "" }
+                match (m.redeemer, m.redeemer_case) {
+                    (true, Some(k)) => format!("        redeemer: Act::A{} {{}},\n", k),
+                    (true, None) => "        redeemer: (),\n".to_string(),
+                    _ => String::new(),
+                }
             ));
         }
         for m in &tx.burns {
@@ -308,7 +329,11 @@ impl Program {
                 "    burn {{\n        amount: {}({}),\n{}    }}\n",
                 self.tokens[m.tok].ident,
                 pq(&m.q),
-                if m.redeemer { "        redeemer: (),\n" } else { "" }
+                match (m.redeemer, m.redeemer_case) {
+                    (true, Some(k)) => format!("        redeemer: Act::A{} {{}},\n", k),
+                    (true, None) => "        redeemer: (),\n".to_string(),
+                    _ => String::new(),
+                }
             ));
         }
         for o in &tx.outputs {
@@ -387,6 +412,7 @@ impl Program {
                     MetaVal::Str(x) => format!("\"{}\"", x),
                     MetaVal::Int(q) => pq(q),
                     MetaVal::BytesParam(p) => p.clone(),
+                    MetaVal::TimeSnap(ms) => format!("slot_to_time(time_to_slot({}))", ms),
                 };
                 s.push_str(&format!("        {}: {},\n", k, vs));
             }
@@ -400,10 +426,13 @@ impl Program {
                     pq(amount),
                     if *redeemer { "        redeemer: (),\n" } else { "" }
                 )),
-                Directive::PlutusWitness { version, script } => s.push_str(&format!(
-                    "    cardano::plutus_witness {{\n        version: {},\n        script: 0x{},\n    }}\n",
+                Directive::PlutusWitness { version, script, script_param } => s.push_str(&format!(
+                    "    cardano::plutus_witness {{\n        version: {},\n        script: {},\n    }}\n",
                     version,
-                    hex::encode(script)
+                    match script_param {
+                        Some(p) => p.clone(),
+                        None => format!("0x{}", hex::encode(script)),
+                    }
                 )),
                 Directive::NativeWitness => s.push_str(
                     "    cardano::native_witness {\n        script: 0x820181820400,\n    }\n",
@@ -606,6 +635,11 @@ fn gen_tx(t: &mut Tape, cfg: &GenCfg, p: &mut Program, k: usize) -> TxSpec {
         if datum_is && !datum_int {
             p.has_rec = true;
         }
+        let has_redeemer = cfg.profile == Profile::Rich && t.chance(1, 6);
+        // not on inputs whose datum is read: lowering a property access formats the whole analysed
+        // input block (its redeemer's variant type, case by case) for an error message it rarely
+        // needs, which takes tens of seconds for a ten-case type - a front-end cost, not a subject here
+        let rcase = redeemer_case(t, p, has_redeemer && !datum_is);
         tx.inputs.push(InputSpec {
             // blocks are resolved in name order, and the collateral query is always called
             // "collateral": names sort before and after it
@@ -614,20 +648,30 @@ fn gen_tx(t: &mut Tape, cfg: &GenCfg, p: &mut Program, k: usize) -> TxSpec {
             from: if has_from { Some(from) } else { None },
             ref_param,
             min,
-            redeemer: cfg.profile == Profile::Rich && t.chance(1, 6),
+            redeemer: has_redeemer,
+            redeemer_case: rcase,
             datum_is,
             datum_int,
         });
     }
     if t.chance(1, 5) {
         let min = Some(Amount(vec![(false, Term::Ada(small_q(t, &mut params, "c")))]));
+        // the collateral may be pinned to a reference too
+        let ref_param = if t.chance(1, 5) {
+            let n = format!("r{}", params.len());
+            params.push((n.clone(), Ty::UtxoRef));
+            Some(n)
+        } else {
+            None
+        };
         tx.collateral = Some(InputSpec {
             name: "collateral".into(),
             many: false,
             from: Some(common_from),
-            ref_param: None,
+            ref_param,
             min,
             redeemer: false,
+            redeemer_case: None,
             datum_is: false,
             datum_int: false,
         });
@@ -644,10 +688,13 @@ fn gen_tx(t: &mut Tape, cfg: &GenCfg, p: &mut Program, k: usize) -> TxSpec {
         for _ in 0..nm {
             let tok = t.index(p.tokens.len());
             let q = small_mint_q(t, &mut params);
+            let has_redeemer = t.chance(1, 3);
+            let rcase = redeemer_case(t, p, has_redeemer && cfg.profile == Profile::Rich);
             tx.mints.push(MintSpec {
                 tok,
                 q,
-                redeemer: t.chance(1, 3),
+                redeemer: has_redeemer,
+                redeemer_case: rcase,
             });
         }
         let nb = t.weighted(&[8, 2]);
@@ -659,6 +706,7 @@ fn gen_tx(t: &mut Tape, cfg: &GenCfg, p: &mut Program, k: usize) -> TxSpec {
                     tok: m.tok,
                     q: m.q.clone(),
                     redeemer: false,
+                    redeemer_case: None,
                 });
             } else {
                 let tok = t.index(p.tokens.len());
@@ -667,6 +715,7 @@ fn gen_tx(t: &mut Tape, cfg: &GenCfg, p: &mut Program, k: usize) -> TxSpec {
                     tok,
                     q,
                     redeemer: false,
+                    redeemer_case: None,
                 });
             }
         }
@@ -706,9 +755,18 @@ fn gen_tx(t: &mut Tape, cfg: &GenCfg, p: &mut Program, k: usize) -> TxSpec {
                     let len = *t.pick(&[5000usize, 4096, 4097, 16_000]);
                     script.resize(len, 0x42 + k as u8);
                 }
+                // the script may arrive as an argument (a Bytes parameter) instead of a literal
+                let script_param = if t.chance(1, 4) {
+                    let name = format!("ws{}", params.len());
+                    params.push((name.clone(), Ty::Bytes));
+                    Some(name)
+                } else {
+                    None
+                };
                 tx.directives.push(Directive::PlutusWitness {
                     version: if t.chance(1, 6) { *t.pick(&[3u8, 2, 1]) } else { version },
                     script,
+                    script_param,
                 });
             }
         }
@@ -737,7 +795,13 @@ fn gen_tx(t: &mut Tape, cfg: &GenCfg, p: &mut Program, k: usize) -> TxSpec {
     for i in 0..nout - 1 {
         let mut terms: Vec<(bool, Term)> = vec![];
         let mut zero_amount = false;
-        if cfg.optional_bias && t.chance(1, 3) {
+        let mut fee_tip = false;
+        if t.chance(1, if cfg.optional_bias { 5 } else { 12 }) {
+            // `output? tip { amount: fees }`: holds nothing in the fee-less first round and is dropped
+            // there, exists from the second round on - the body changes shape between rounds
+            terms.push((false, Term::Fees));
+            fee_tip = true;
+        } else if cfg.optional_bias && t.chance(1, 3) {
             // an amount that evaluates to nothing: an optional output written like this is dropped
             terms.push((false, Term::Ada(Q::Lit(0))));
             zero_amount = true;
@@ -748,7 +812,7 @@ fn gen_tx(t: &mut Tape, cfg: &GenCfg, p: &mut Program, k: usize) -> TxSpec {
         } else {
             terms.push((false, Term::Ada(small_q(t, &mut params, "a"))));
         }
-        if !zero_amount && !p.tokens.is_empty() && t.chance(1, 3) {
+        if !zero_amount && !fee_tip && !p.tokens.is_empty() && t.chance(1, 3) {
             let tok = t.index(p.tokens.len());
             if cfg.profile != Profile::Selection && t.chance(1, 4) {
                 let name = format!("nm{}x{}", tok, params.len());
@@ -765,7 +829,7 @@ fn gen_tx(t: &mut Tape, cfg: &GenCfg, p: &mut Program, k: usize) -> TxSpec {
         let to_policy = if !p.policies.is_empty() && t.chance(1, 2) { Some(t.index(p.policies.len())) } else { None };
         tx.outputs.push(OutputSpec {
             name: if use_min_utxo || t.chance(1, 3) { Some(out_names[i].clone()) } else { None },
-            optional: (zero_amount || t.chance(1, if cfg.optional_bias { 2 } else { 8 })) && datum.is_none(),
+            optional: (zero_amount || fee_tip || t.chance(1, if cfg.optional_bias { 2 } else { 8 })) && datum.is_none(),
             to: t.index(np),
             to_policy,
             amount: Amount(terms),
@@ -826,7 +890,8 @@ fn gen_tx(t: &mut Tape, cfg: &GenCfg, p: &mut Program, k: usize) -> TxSpec {
         if t.chance(1, 4) {
             let n = 1 + t.index(3);
             for i in 0..n {
-                let v = match t.draw(3) {
+                let v = match t.draw(4) {
+                    3 => MetaVal::TimeSnap(1_757_611_408_000 + t.draw(200_000) as i128),
                     0 => MetaVal::Str(format!("meta{}", i)),
                     1 => MetaVal::Int(small_q(t, &mut params, "m")),
                     _ => {
@@ -841,6 +906,17 @@ fn gen_tx(t: &mut Tape, cfg: &GenCfg, p: &mut Program, k: usize) -> TxSpec {
     }
     tx.params = params;
     tx
+}
+
+/// which case of `Act` a redeemer uses (None: the unit `()`); marks the program as declaring the type
+fn redeemer_case(t: &mut Tape, p: &mut Program, has: bool) -> Option<u8> {
+    if has && t.chance(1, 2) {
+        p.has_act = true;
+        // all ten alternatives, the last ones (beyond the compact constructor tags) on purpose
+        Some(*t.pick(&[7u8, 0, 6, 9, 5, 8, 1]))
+    } else {
+        None
+    }
 }
 
 fn small_mint_q(t: &mut Tape, params: &mut Vec<(String, Ty)>) -> Q {
@@ -1124,6 +1200,12 @@ pub fn gen_args(t: &mut Tape, p: &Program, tx: &TxSpec, chain: &SimChain, dist: 
                 };
                 shown.insert(key.clone(), format!("{}", v));
                 args.insert(key, ArgValue::Int(v));
+            }
+            Ty::Bytes if n.starts_with("ws") => {
+                let len = *t.pick(&[18usize, 24, 18, 40]);
+                let b = t.bytes(len);
+                shown.insert(key.clone(), format!("0x{}", hex::encode(&b)));
+                args.insert(key, ArgValue::Bytes(b));
             }
             Ty::Bytes if n.starts_with("nm") => {
                 // an asset name: usually the declared name of that token, sometimes empty / other
